@@ -75,6 +75,26 @@ type Case struct {
 	// a multi-localised tag whose first records are fine and whose later record points outside the tag, a text
 	// description cut short, a tag of another type under the 'desc' signature.  Its answer is ignored.
 	After int `json:"after,omitempty"`
+	// Twin: before the case, Description() is asked of a profile that is this profile's twin - same header (so the
+	// same profile ID, which editors that rename a profile in place do not recompute), same tags, same sizes - with a
+	// different description text of the same length
+	Twin bool `json:"twin,omitempty"`
+}
+
+// twinText changes every letter and digit of s to its neighbour (same length in bytes and in UTF-16 units)
+func twinText(s string) string {
+	b := []rune(s)
+	for i, r := range b {
+		switch {
+		case r >= 'a' && r < 'z', r >= 'A' && r < 'Z', r >= '0' && r < '9':
+			b[i] = r + 1
+		case r == 'z' || r == 'Z' || r == '9':
+			b[i] = r - 1
+		case r == ' ':
+			b[i] = '_'
+		}
+	}
+	return string(b)
 }
 
 func damagedBefore(i int) {
@@ -287,6 +307,21 @@ func classes(c Case) []string {
 func check(c Case) (kind, what string) {
 	if c.After > 0 {
 		damagedBefore(c.After - 1)
+	}
+	if c.Twin {
+		t := c
+		t.Twin = false
+		t.ASCII, t.Unicode, t.Script = twinText(c.ASCII), twinText(c.Unicode), twinText(c.Script)
+		t.Recs = append([]Rec(nil), c.Recs...)
+		for i := range t.Recs {
+			t.Recs[i].Text = twinText(t.Recs[i].Text)
+		}
+		tp, _ := t.build()
+		ev.Guard(func() {
+			if p, err := icc.NewProfileReader(bytes.NewReader(tp)).ReadProfile(); err == nil && p != nil {
+				p.Description()
+			}
+		})
 	}
 	prof, _ := c.build()
 	var p *icc.Profile
@@ -662,6 +697,15 @@ func gen(rt *rapid.T) Case {
 		}
 		c.Gap = rapid.SampledFrom([]int{0, 0, 2, 4}).Draw(rt, "gap")
 	}
+	if rapid.IntRange(0, 5).Draw(rt, "twinfirst") == 0 {
+		c.Twin = true
+		if len(c.Hdr) != 128 {
+			h := build.DefaultHeader()
+			c.Hdr = h[:]
+		}
+		copy(c.Hdr[84:100], vgen.Payload(rt, "twinid", 16))
+		c.Hdr[84] |= 1 // a profile ID that is not all zero
+	}
 	if rapid.IntRange(0, 5).Draw(rt, "afterdamaged") == 0 {
 		c.After = rapid.IntRange(1, 15).Draw(rt, "damaged")
 	}
@@ -681,7 +725,7 @@ func TestC17(t *testing.T) {
 		fmt.Println("REPLAY case passed")
 		return
 	}
-	ev.Rule("rapid grammar-built ICC profiles: 0-64 tags with distinct signatures, 'desc' at a random table position or absent, data blocks laid out in table/reverse/random order, blocks shared between tags, 0-3 padding bytes between blocks and after the table, trailer bytes; v2 textDescription (0-2000 printable ASCII; half with different text in the Unicode and ScriptCode parts, the ASCII part sometimes empty) or v4 mluc with 1-40 records (languages incl. 0/1/several 'en'), strings in table/reverse/random order, shared, overlapping (suffix), with gaps; text from ASCII, BMP and surrogate-pair ranges; read through icc.NewProfileReader from offset 0 or from a standard reader positioned after container bytes, or embedded in a PNG (iCCP) / JPEG (2 APP2 chunks) through meta.Data.ICCProfile, or from a *bytes.Buffer that is reused for another profile and then overwritten before the description is asked for. A sixth of the cases directly follow a Description() call on a damaged profile (a record pointing outside its tag, a cut record table, an overlong text count), whose answer is ignored. non-trivial = distinct case with >= 2 mluc records, a string not immediately after its record, data order != table order, shared or padded blocks, or zero tags")
+	ev.Rule("rapid grammar-built ICC profiles: 0-64 tags with distinct signatures, 'desc' at a random table position or absent, data blocks laid out in table/reverse/random order, blocks shared between tags, 0-3 padding bytes between blocks and after the table, trailer bytes; v2 textDescription (0-2000 printable ASCII; half with different text in the Unicode and ScriptCode parts, the ASCII part sometimes empty) or v4 mluc with 1-40 records (languages incl. 0/1/several 'en'), strings in table/reverse/random order, shared, overlapping (suffix), with gaps; text from ASCII, BMP and surrogate-pair ranges; read through icc.NewProfileReader from offset 0 or from a standard reader positioned after container bytes, or embedded in a PNG (iCCP) / JPEG (2 APP2 chunks) through meta.Data.ICCProfile, or from a *bytes.Buffer that is reused for another profile and then overwritten before the description is asked for. A sixth of the cases directly follow Description() on the profile's twin (same header and profile ID, same sizes, another text of the same length); a sixth directly follow a Description() call on a damaged profile (a record pointing outside its tag, a cut record table, an overlong text count), whose answer is ignored. non-trivial = distinct case with >= 2 mluc records, a string not immediately after its record, data order != table order, shared or padded blocks, or zero tags")
 	ev.Assume("harness ICC/mluc builder; Description must be a member of the allowed set (any 'en' record, else any record)")
 	// deterministic corner cases first
 	fixed := []Case{
